@@ -49,6 +49,8 @@ def read_groundwater_table(
 
         # get date in correct format
         df.Date = pd.DatetimeIndex(df.Date)
+        # (the observations may be listed in any order)
+        df = df.sort_values("Date", kind="stable").reset_index(drop=True)
         # print(f'DF length: {len(df)}')
         # print(f'Index length: {len(df.index)}')
 
